@@ -15,21 +15,25 @@ func (p *Pool) lazyResend() {
 
 	p.sendWg.Add(1)
 	go func() {
-		defer func() {
-			p.lazySendM.Unlock()
-			p.sendWg.Done()
-		}()
+		defer p.sendWg.Done()
 
 		for {
 			p.listM.Lock()
 			n := p.el.PopBack()
-			p.listM.Unlock()
 			if n == nil {
+				// The flag is released while the queue lock is still held: a producer
+				// that pushes after this point finds the flag free and starts a flusher.
+				p.lazySendM.Unlock()
+				p.listM.Unlock()
+
 				return
 			}
+			p.listM.Unlock()
 
 			select {
 			case <-p.ctx.Done():
+				p.lazySendM.Unlock()
+
 				return
 			case p.ch <- n.V():
 				p.pool.Release(n)
